@@ -456,7 +456,10 @@ def run_case(case: dict) -> tuple[str, str, dict[str, Any], list[type]] | None:
     except WorkflowValidationError:
         return None
     steps = {name: fn._step_config for name, fn in wf_cls._get_steps_from_class().items()}
-    op = f"W {hier} {op_steps(steps, classes)} {skip_txt}"
+    try:
+        op = f"W {hier} {op_steps(steps, classes)} {skip_txt}"
+    except KeyError as e:  # a step that does not belong to this class (its events are of another class pool)
+        return f"W {hier} 0 {skip_txt}", f"err other:class lists a step it never declared ({e})", steps, classes
     try:
         wf = wf_cls(skip_graph_checks=set(case["skip"]))
         steps2 = wf._step_configs()
@@ -1046,7 +1049,10 @@ def run_batch(env: Env, out: Outcome, cases: list[tuple[dict, str]], hiers: list
         if kind not in ("err noStart", "err noStop", "err noSteps"):
             out.nontrivial(op)
         out.sample({"label": label, "op": op, "impl": res})
-        v = monitor(case, res, steps, out, _classes)
+        try:
+            v = monitor(case, res, steps, out, _classes)
+        except KeyError as e:  # an event class that is not of this case's pool: the class lists a step it never declared
+            v = Violation("C23/unexpected_error:foreign_step", f"the workflow class lists a step it never declared ({e!r}); answer {res}", case)
         if v is not None:
             out.violations.append(v)
     _diff(out, "validate", ops, exp, ctx)
